@@ -23,7 +23,7 @@ import (
 	"time"
 )
 
-const replayMaxLen = 48
+const replayMaxLen = 96
 
 type replayQuery struct {
 	terms []string // SMT terms to evaluate
@@ -138,7 +138,8 @@ func (b *argBuilder) plan(v Value, t types.Type, depth int) func() string {
 		}
 		ni := b.q.add(sv.blk)
 		li := b.q.add(sv.ln)
-		b.bounds = append(b.bounds, Le(sv.ln, I(replayMaxLen)))
+		ci := b.q.add(sv.cp)
+		b.bounds = append(b.bounds, Le(sv.ln, I(replayMaxLen)), Le(sv.cp, I(4096)))
 		arr := Sel(b.st.Mem, sv.blk)
 		var bi []int
 		for k := 0; k < replayMaxLen; k++ {
@@ -149,15 +150,29 @@ func (b *argBuilder) plan(v Value, t types.Type, depth int) func() string {
 				return "nil"
 			}
 			n, _ := strconv.Atoi(b.vals[li])
+			extra := 0
 			if n > replayMaxLen {
+				extra = n - replayMaxLen
 				n = replayMaxLen
+			}
+			if extra > 1<<20 {
+				extra = 1 << 20
 			}
 			var parts []string
 			for k := 0; k < n; k++ {
 				c, _ := strconv.Atoi(b.vals[bi[k]])
 				parts = append(parts, strconv.Itoa(c&0xff))
 			}
-			return b.typeStr(t) + "{" + strings.Join(parts, ", ") + "}"
+			lit := b.typeStr(t) + "{" + strings.Join(parts, ", ") + "}"
+			if extra > 0 {
+				lit = fmt.Sprintf("append(%s, make(%s, %d)...)", lit, b.typeStr(t), extra)
+			}
+			total := n + extra
+			if c, err := strconv.Atoi(b.vals[ci]); err == nil && c > total && c <= 1<<22 {
+				// keep the model's spare capacity (slicing beyond len up to cap is legal Go)
+				return fmt.Sprintf("append(make(%s, 0, %d), %s...)", b.typeStr(t), c, lit)
+			}
+			return fmt.Sprintf("append(make(%s, 0, %d), %s...)", b.typeStr(t), total, lit)
 		}
 	case *types.Array:
 		av, ok := v.(ArrV)
@@ -190,12 +205,16 @@ func (b *argBuilder) plan(v Value, t types.Type, depth int) func() string {
 		case *types.Struct:
 			_ = eu
 			e.quant++
+			e.specMode++
 			pv := e.loadAt(b.st, rv.t, u.Elem())
+			e.specMode--
 			e.quant--
 			inner = b.plan(pv, u.Elem(), depth+1)
 		default:
 			e.quant++
+			e.specMode++
 			pv := e.loadAt(b.st, rv.t, u.Elem())
+			e.specMode--
 			e.quant--
 			in := b.plan(pv, u.Elem(), depth+1)
 			ts := b.typeStr(u.Elem())
@@ -446,6 +465,9 @@ func tryReplay(prog *Program, res *FuncResult, ob *Oblig, repo string, overlayEd
 	b.imports["testing"] = "testing"
 	b.imports["reflect"] = "reflect"
 	for path, name := range b.imports {
+		if name != "fmt" && name != "testing" && name != "reflect" && !strings.Contains(body.String(), name+".") {
+			continue
+		}
 		imps = append(imps, fmt.Sprintf("\t%s %q", name, path))
 	}
 	sort.Strings(imps)
@@ -543,6 +565,10 @@ func (e *Engine) queryModel(o *Oblig, q *replayQuery, bounds []T) ([]string, boo
 	tmp.Close()
 	r := runSolver(context.Background(), solvers[0], tmp.Name(), 20)
 	if r.status != "sat" {
+		if os.Getenv("GOVC_DEBUG") != "" {
+			fmt.Fprintln(os.Stderr, "model query:", r.status, truncate(r.out, 400))
+			os.WriteFile("/tmp/govc_model_query.smt2", []byte(sb.String()), 0o644)
+		}
 		return nil, false
 	}
 	return parseGetValue(r.out, len(q.terms))
